@@ -87,7 +87,7 @@ class _G:
         if r <= 4:
             pass
         elif r == 5:
-            node["default"] = {"t": "const", "v": self.pick(U.HASHABLE_DISPATCH if hashable else U.SCALARS + [[1], []])}
+            node["default"] = {"t": "const", "v": self.pick(U.HASHABLE_DISPATCH if hashable else U.SCALARS + [[1], [], {"q": [1], "r": {"s": 1}}, [[1], [2]]])}
         elif r == 6 and self.p["templates"] and not hashable:
             node["default"] = {"t": "tmpl", "s": self.tmpl_text(params=False)}
         elif r == 7:
@@ -233,8 +233,13 @@ class _G:
             # a dataset class: members under public and single-underscore names, annotated or not, own or inherited from
             # a plain base class; evaluating it gives an instance whose attributes are the members' evaluations
             names = self.draw(st.lists(st.sampled_from(["a", "b", "c", "_p"]), min_size=1, max_size=3, unique=True))
-            return {"k": "dclass", "members": [{"name": nm, "node": self.node(d) if self.chance(0.6) else self.leaf(False),
-                                                "annotated": self.chance(0.6), "inherited": self.chance(0.25)} for nm in names]}
+            def member_node():
+                if self.chance(0.2):
+                    # a dataset class nested in a dataset class
+                    inner = self.draw(st.lists(st.sampled_from(["a", "b", "_p"]), min_size=1, max_size=2, unique=True))
+                    return {"k": "dclass", "members": [{"name": nm, "node": self.leaf(False), "annotated": self.chance(0.6), "inherited": False} for nm in inner]}
+                return self.node(d) if self.chance(0.6) else self.leaf(False)
+            return {"k": "dclass", "members": [{"name": nm, "node": member_node(), "annotated": self.chance(0.6), "inherited": self.chance(0.25)} for nm in names]}
         if k == "dict":
             n = self.draw(st.integers(0, 3))
             keys = self.draw(st.lists(st.sampled_from(["x", "y", 1, None, 0]), min_size=n, max_size=n, unique_by=lambda v: (type(v).__name__, v)))
